@@ -47,7 +47,19 @@ impl EventStore {
 
         // Determine if we just created it
         // (not long enough for the required end offset)
-        let new = len < mem::size_of::<usize>();
+        let mut new = len < mem::size_of::<usize>();
+
+        // ...or if creating it was interrupted after the file was sized but before the
+        // end marker was written: a valid end marker is never inside the header, and
+        // appending at such an offset would overwrite the marker itself.
+        if !new {
+            use std::os::unix::fs::FileExt;
+            let mut header = [0_u8; mem::size_of::<usize>()];
+            event_map_file.read_exact_at(&mut header, 0)?;
+            if usize::from_le_bytes(header) < mmap_append::HEADER_SIZE {
+                new = true;
+            }
+        }
 
         // If brand new:
         if new {
